@@ -7,6 +7,10 @@
 (*   "stats": [{"k","g","n","sum","sumsq","gt0","gt1","ge1"}, ...],        *)
 (*   "coarse": [{"K","g","n","sum","sumsq","gt0","gt1","ge1"}, ...],       *)
 (*   "par": [class of cluster 1..NCl],                                     *)
+(*   "par2": [super class of class 1..2], "coarse2": [{"U","g",...}],      *)
+(*   (stats / coarse / coarse2 may hold several rows for one (id, gene):   *)
+(*    the same quantity obtained by another route - re-written input,      *)
+(*    permuted row table, chained collapse - each must equal Direct)       *)
 (*   "merged": [{"k","g","n","sum","n1","sum1","n2","sum2"}, ...]}         *)
 (* Clause numbers 9xx.                                                     *)
 (***************************************************************************)
@@ -38,6 +42,13 @@ Err(t) ==
                 LET s == t.coarse[i] d == Direct(vec, CoarseLab(lab, par), s.K, s.g) IN
                 s.n = d.n /\ s.sum = d.sum /\ s.sumsq = d.sumsq /\ s.gt0 = d.gt0 /\ s.gt1 = d.gt1
                 /\ s.ge1 = d.ge1) THEN 905                                                  \* collapsed hierarchy
+    \* two steps up (directly, or chained through the intermediate file)
+    ELSE IF ~(\A i \in 1..Len(t.coarse2) :
+                LET s == t.coarse2[i]
+                    par2 == [K \in 1..Len(t.par2) |-> t.par2[K]]
+                    d == Direct(vec, CoarseLab(CoarseLab(lab, par), par2), s.U, s.g) IN
+                s.n = d.n /\ s.sum = d.sum /\ s.sumsq = d.sumsq /\ s.gt0 = d.gt0 /\ s.gt1 = d.gt1
+                /\ s.ge1 = d.ge1) THEN 907
     ELSE IF ~(\A i \in 1..Len(t.merged) :
                 LET m == t.merged[i] IN
                 \/ (m.n = m.n1 /\ m.sum = m.sum1 /\ m.n1 >= m.n2)
